@@ -245,12 +245,26 @@ Definition process_from_remote (n : nat) (m : upmsg) : D (list cevent) :=
                                n_closed := n_closed f |} (d_nt d))) in
   match m with
   | UEnd => if n_down f then ret [] else set_down ;;; ret [QErrorDown n]
+  | _ =>
+  (* a worker that is down (finished, or written off for an undecodable message) is not heard any more *)
+  if n_down f then ret [] else
+  match m with
+  | UEnd => ret []
   | UFinished sk => set_down ;;; ret [QFinished n sk]
   | UCollFinish ids => ret [QCollFinish n ids]
   | UComplete i ms => ret [QComplete n i ms]
   | UInternalError => ret [QInternalError n]
   | UWarning _ => ret [QWarning]         (* a warning that cannot be rebuilt is re-emitted in generic form *)
-  | UBad => d_node_shutdown n ;;; ret [QErrorDown n]
+  | UBad =>
+      (* shutdown(), errordown queued, and the node is marked down *)
+      d_node_shutdown n ;;;
+      d1 <- get ;;
+      match aget n (d_nt d1) with
+      | Some f1 => put (d_set_nt d1 (aset n {| n_spec := n_spec f1; n_down := true; n_sdsent := n_sdsent f1;
+                                               n_closed := n_closed f1 |} (d_nt d1)))
+      | None => ret tt
+      end ;;;
+      ret [QErrorDown n]
   | UEv e =>
       match e with
       | EReady => ret [QReady n]
@@ -264,4 +278,5 @@ Definition process_from_remote (n : nat) (m : upmsg) : D (list cevent) :=
       | EUnscheduled ixs => ret [QUnscheduled n ixs]
       | EFinished s => set_down ;;; ret [QFinished n (if s then SKStop else SKNone)]
       end
+  end
   end.
